@@ -3,7 +3,7 @@ Models: Encode/CodeWrapper/Proto; theorems: IRModel/Props/C01.lean (+EngineThm, 
 import vlib
 from props import engine_common as ec, engine_prove
 
-MODULES = ['IRModel.Props.C01']
+MODULES = ['IRModel.Props.C01', 'IRModel.Props.Manchester']
 
 
 def first_code(protos, dec, code):
